@@ -1,28 +1,85 @@
 (* C09: the mutable package-level state of the program and why it cannot influence results.
-   (1) Inventory (T1): every package-level variable of the module with its syntactic write
-       sites incl. writes through local aliases and parameters (tools/scan, regenerated into
-       gen/Scan.v on every run) must have no write site, or be classified below.
-   (2) The one classified mutation: primeFieldParamsMatch does
+   (1) Inventory (T1): every package-level variable of the module - and state of other packages
+       that module code sets - with every site that may mutate it (tools/scan/globals.go,
+       regenerated into gen/Scan.v on every run): assignments and ++/--, append/copy/sort/
+       delete/clear, directly or through an alias (local, parameter, method receiver, function
+       result, field of a local structure; with the number of dereferences that separate a copy
+       from the variable's memory), address taken, and every hand-over to code that is not
+       followed: a method that is not declared in the module called on it (pointer receivers
+       take its address: sync.Map.Store, sync.Once.Do, ...), a reference into it passed to a
+       library function, an interface method or a function value, sent on a channel.
+       A variable is benign when, after dropping the hand-overs to callees that only READ their
+       operands (listed BY NAME below) and the sites in `init` functions, it has no site left,
+       or exactly the sites it is classified with below.
+   (2) The one classified mutation of visible consequence: primeFieldParamsMatch does
            bytes.Equal(append(a.BaseX, a.BaseY...), b.Base[1:])
        where a is a COPY of a namedPrimeCurves entry whose BaseX slice shares its backing array
        with the table: Go's append writes BaseY into the SPARE CAPACITY of that array (in place,
-       when capacity allows).  Modelled literally with slices = (backing array, len). *)
+       when capacity allows).  Modelled literally with slices = (backing array, len).
+   (3) The process state as a whole and an inspection as a PROGRAM that talks to it through
+       requests; a write site that is not classified is the request RWrite. *)
 From WI Require Import Lib.Base.
-From Coq Require String.
+From Coq Require String Ascii.
 From WI Require gen.Scan.
 Open Scope N_scope.
 
 (* ---------- (1) classification of globals ---------- *)
 Inductive gstatus :=
-| GSpareCapacityOnly      (* writes only beyond len of a shared slice: see the state machine below *)
-| GInitIdempotent.        (* lazily initialised table: every initialisation writes the same values *)
+| GSpareCapacityOnly      (* writes only beyond len of a shared slice whose result is compared and dropped: state machine below *)
+| GInitIdempotent         (* lazily initialised table: every initialisation writes the same values *)
+| GOnceGuard              (* the sync.Once that guards that initialisation *)
+| GNilSliceAppend         (* a description value returned BY VALUE; callers append to the copy's slices, which are nil in
+                             the variable (capacity 0, regenerated in gen/SharedValues.v): every append reallocates *)
+| GProcessSetup.          (* state of another package set in main.main before anything is inspected *)
 
 Definition global_class : list (string * list (string * string) * gstatus) := [
   ("internal/crypto/elliptic.namedPrimeCurves",
      [("internal/crypto/elliptic:primeFieldParamsMatch", "append-into")], GSpareCapacityOnly);
   ("internal/ssh1/des.feistelBox",
-     [("internal/ssh1/des:initFeistelBox", "assign")], GInitIdempotent)
+     [("internal/ssh1/des:initFeistelBox", "assign")], GInitIdempotent);
+  ("internal/ssh1/des.feistelBoxOnce",
+     [("internal/ssh1/des:*desCipher.generateSubkeys", "method:sync.Once.Do")], GOnceGuard);
+  (* flow-insensitive: parsePKCS8PrivateKey appends to info.Attributes where info MAY hold the Attributes of a
+     value returned by a parser that returns UnknownASN1Data on error (those branches are guarded by err == nil) *)
+  ("internal/file.UnknownASN1Data",
+     [("internal/file:parsePKCS8PrivateKey", "append-into")], GNilSliceAppend);
+  (* PEMFile appends the block descriptions to info.Children where info.Children MAY be those of a block described
+     as UnknownPEMData *)
+  ("internal/file.UnknownPEMData",
+     [("internal/file:PEMFile", "append-into")], GNilSliceAppend);
+  ("lib:flag.Usage",
+     [("cmd/decipher:main", "assign")], GProcessSetup)
 ]%string.
+
+(* hand-overs to callees outside the module that only READ the operand in question - "arg:": the
+   reference is an argument (comparison, search, formatting, wrapping of an error value, the data
+   argument of a Write - io.Writer: "Write must not modify the slice data, even temporarily");
+   "method:": the method is called ON the value (a comparison or a rendering of it).  A Write ON a
+   package-level hash or buffer would be "method:io.Writer.Write" and is not listed. *)
+Definition read_only_kinds : list string := [
+  "arg:bytes.Equal"; "arg:bytes.HasPrefix"; "arg:bytes.Index";
+  "arg:strings.Join";
+  "arg:errors.Is"; "arg:fmt.Errorf"; "arg:log.Printf";
+  "arg:encoding/asn1.ObjectIdentifier.Equal"; "method:encoding/asn1.ObjectIdentifier.String";
+  "method:math/big.Int.Cmp";
+  "method:time.Time.Unix";
+  "arg:encoding/binary.bigEndian.Uint64";
+  "arg:io.Writer.Write"; "arg:bufio.Writer.Write"
+]%string.
+
+Definition has_prefix (p s : string) : bool := String.prefix p s.
+Definition has_suffix (p s : string) : bool :=
+  String.eqb (String.substring (String.length s - String.length p) (String.length p) s) p
+  && Nat.leb (String.length p) (String.length s).
+
+Definition site_reads_only (s : string * string) : bool :=
+  existsb (String.eqb (snd s)) read_only_kinds.
+
+(* a site in a package's init function: runs once, before main *)
+Definition site_in_init (s : string * string) : bool := has_suffix ":init"%string (fst s).
+
+Definition mutating_sites (ws : list (string * string)) : list (string * string) :=
+  filter (fun s => negb (site_reads_only s || site_in_init s)) ws.
 
 Definition site_eqb (a b : string * string) : bool :=
   (String.eqb (fst a) (fst b) && String.eqb (snd a) (snd b))%bool.
@@ -36,13 +93,19 @@ Fixpoint sites_eqb (a b : list (string * string)) : bool :=
 
 Definition global_ok (g : string * bool * list (string * string)) : bool :=
   match g with
-  | (name, _, []) => true                                  (* never written after initialisation *)
   | (name, _, writes) =>
-      existsb (fun c => match c with (n, ws, _) => String.eqb n name && sites_eqb ws writes end) global_class
+      match mutating_sites writes with
+      | [] => true                                          (* never written after initialisation *)
+      | ws => existsb (fun c => match c with (n, cws, _) => String.eqb n name && sites_eqb cws ws end) global_class
+      end
   end.
 
 Definition globals_benign (gs : list (string * bool * list (string * string))) : bool :=
   forallb global_ok gs.
+
+(* the variables of an inventory that have a mutating site outside their classification *)
+Definition writable (gs : list (string * bool * list (string * string))) (name : string) : bool :=
+  existsb (fun g => match g with (n, _, _) => String.eqb n name && negb (global_ok g) end) gs.
 
 (* ---------- (2) slices with capacity and Go's append ---------- *)
 Record gslice := { backing : bytes; slen : nat }.            (* cap = length backing *)
@@ -74,8 +137,7 @@ Fixpoint update_nth {A} (k : nat) (f : A -> A) (l : list A) : list A :=
   | S k', x :: r => x :: update_nth k' f r
   end.
 
-(* inspecting one input = some sequence of requests (table entry, bytes to compare); everything
-   else in the program reads no mutable package-level data (part 1) *)
+(* a request against the curve table: (table entry, bytes to compare) *)
 Definition request := (nat * bytes)%type.
 
 Definition do_request (st : gstate) (r : request) : gstate * option bool :=
@@ -97,3 +159,111 @@ Fixpoint step (st : gstate) (rs : list request) : gstate * list (option bool) :=
 Definition view (st : gstate) : list (bytes * bytes * bytes) :=
   map (fun e => (ce_name e, visible (ce_basex e), ce_basey e)) st.
 Definition state_ok (st : gstate) : bool := forallb (fun e => gslice_ok (ce_basex e)) st.
+
+(* ---------- (3) the whole process state; an inspection as a program ---------- *)
+(* ps_vars: every package-level variable that is only read (name -> value, abstractly as bytes);
+   ps_curves: namedPrimeCurves; ps_shared: the slices of the shared description values;
+   ps_once/ps_box: feistelBoxOnce and feistelBox (all zero until initialised). *)
+Record pstate := {
+  ps_vars   : list (string * bytes);
+  ps_curves : gstate;
+  ps_shared : list (string * gslice);
+  ps_once   : bool;
+  ps_box    : bytes
+}.
+
+Inductive prequest :=
+| RRead (g : string)                       (* read a package-level variable *)
+| RCurve (r : request)                     (* primeFieldParamsMatch: append into spare capacity, compare *)
+| RSharedAppend (g : string) (ys : bytes)  (* append to the slice of a COPY of a shared description value *)
+| RDes                                     (* generateSubkeys: feistelBoxOnce.Do(initFeistelBox), then the table is read *)
+| RWrite (g : string) (v : bytes).         (* any other write site: package-level variable g := v *)
+
+Inductive panswer :=
+| AValue (v : option bytes)
+| AMatch (b : option bool)
+| AJoined (v : option bytes)
+| ABox (t : bytes).
+
+Fixpoint lookup {A} (k : string) (l : list (string * A)) : option A :=
+  match l with
+  | [] => None
+  | (k', v) :: r => if String.eqb k k' then Some v else lookup k r
+  end.
+
+Fixpoint store {A} (k : string) (v : A) (l : list (string * A)) : list (string * A) :=
+  match l with
+  | [] => [(k, v)]
+  | (k', v') :: r => if String.eqb k k' then (k, v) :: r else (k', v') :: store k v r
+  end.
+
+(* box: the table initFeistelBox computes (a constant of the program; a parameter here) *)
+Definition do_prequest (box : bytes) (st : pstate) (r : prequest) : pstate * panswer :=
+  match r with
+  | RRead g => (st, AValue (lookup g (ps_vars st)))
+  | RCurve q =>
+      let (c', o) := do_request (ps_curves st) q in
+      ({| ps_vars := ps_vars st; ps_curves := c'; ps_shared := ps_shared st; ps_once := ps_once st; ps_box := ps_box st |}, AMatch o)
+  | RSharedAppend g ys =>
+      match lookup g (ps_shared st) with
+      | None => (st, AJoined None)
+      | Some s =>
+          let (s', joined) := go_append s ys in
+          ({| ps_vars := ps_vars st; ps_curves := ps_curves st; ps_shared := store g s' (ps_shared st);
+              ps_once := ps_once st; ps_box := ps_box st |}, AJoined (Some joined))
+      end
+  | RDes =>
+      if ps_once st then (st, ABox (ps_box st))
+      else ({| ps_vars := ps_vars st; ps_curves := ps_curves st; ps_shared := ps_shared st; ps_once := true; ps_box := box |}, ABox box)
+  | RWrite g v =>
+      ({| ps_vars := store g v (ps_vars st); ps_curves := ps_curves st; ps_shared := ps_shared st;
+          ps_once := ps_once st; ps_box := ps_box st |}, AValue None)
+  end.
+
+(* describing one input: requests chosen adaptively from the answers so far, then a description *)
+Inductive prog :=
+| Done (description : bytes)
+| Ask (r : prequest) (k : panswer -> prog).
+
+Fixpoint run (box : bytes) (p : prog) (st : pstate) : pstate * bytes :=
+  match p with
+  | Done d => (st, d)
+  | Ask r k => let (st', a) := do_prequest box st r in run box (k a) st'
+  end.
+
+(* the program respects an inventory: it writes (RWrite) only variables that have a mutating
+   site outside their classification *)
+Fixpoint respects (w : string -> bool) (p : prog) : Prop :=
+  match p with
+  | Done _ => True
+  | Ask r k => (match r with RWrite g _ => w g = true | _ => True end) /\ forall a, respects w (k a)
+  end.
+
+(* the process after a history of inputs (describe: input -> its program) *)
+Definition state_after (box : bytes) (describe : bytes -> prog) (h : list bytes) (init : pstate) : pstate :=
+  fold_left (fun st x => fst (run box (describe x) st)) h init.
+Definition description (box : bytes) (describe : bytes -> prog) (st : pstate) (x : bytes) : bytes :=
+  snd (run box (describe x) st).
+
+(* what an inspection can observe of the process state *)
+Definition shared_view (l : list (string * gslice)) : list (string * bytes) :=
+  map (fun e => (fst e, visible (snd e))) l.
+Definition pview (st : pstate) : list (string * bytes) * list (bytes * bytes * bytes) * list (string * bytes) :=
+  (ps_vars st, view (ps_curves st), shared_view (ps_shared st)).
+Definition pstate_ok (box : bytes) (st : pstate) : bool :=
+  state_ok (ps_curves st) && forallb (fun e => gslice_ok (snd e)) (ps_shared st)
+  && (if ps_once st then bytes_eqb (ps_box st) box else true).
+
+(* the shared description values of the running code: nil slices *)
+Definition shared_nil (t : list (string * (nat * nat) * (nat * nat))) : bool :=
+  forallb (fun r => match r with (_, (l1, c1), (l2, c2)) => Nat.eqb l1 0 && Nat.eqb c1 0 && Nat.eqb l2 0 && Nat.eqb c2 0 end) t.
+
+(* the pre-repair shape of a "remember the last row" shortcut (seeded change): Inspect reads
+   lastMatched, prefers that row when it claims the input, and records the row that matched.
+   claims: the rows that claim the input, in table order (a row = its description) *)
+Definition hinted_inspect (claims : list bytes) : prog :=
+  Ask (RRead "internal/file.lastMatched"%string)
+      (fun a =>
+         let hint := match a with AValue (Some h) => h | _ => [] end in
+         let chosen := if existsb (bytes_eqb hint) claims then hint else hd [] claims in
+         Ask (RWrite "internal/file.lastMatched"%string chosen) (fun _ => Done chosen)).
